@@ -402,7 +402,10 @@ for k1, k2 in FLOAT_PAIRS:
             ('zero_divisor_is_FOAR0001',
              "not (is_zero(op2) and is_finite(op1)) or raised_code == 'FOAR0001'"),
             ('finite_by_infinity_is_zero',
-             "beyond(op1, op2) or not (is_finite(op1) and inf_sign(op2) != 0) or (returned and result == 0)"),
+             "not (is_finite(op1) and inf_sign(op2) != 0) or (returned and result == 0)"),
+            ('truncates_toward_zero_exactly',
+             "not (is_finite(op1) and is_finite(op2) and not is_zero(op2)) or "
+             "(returned and result == trunc_div(op1, op2))"),
             ('result_is_integer', "not returned or is_int(result)"),
             ('only_coded_errors', "returned or raised_code is not None"),
         ],
@@ -447,3 +450,188 @@ for k1, k2 in FLOAT_PAIRS:
                   ('infinity_absorbs_finite',
                    "beyond(op1, op2) or not (inf_sign(op1) != 0 and is_finite(op2)) or inf_sign(result) == inf_sign(op1)")]),
             specs=FSPECS, native=binary_native('2.0', sym), samples=mixed_pairs((k1, k2)), expect_min_obligations=4))
+
+
+# ---- get_operands: numeric type promotion of the operand pair (F&O B.1) ----------------------
+from elementpath.datatypes import Float as XsFloat          # noqa: E402
+from elementpath.xpath_tokens.base import XPathToken         # noqa: E402
+
+PKINDS = dict(KINDS)
+PKINDS['xsfloat'] = lambda S, n, ex=None: S.float(n, pycls=XsFloat, ex=ex)
+PROMOTED = {('dec', 'float'): ('float', 'float'), ('float', 'dec'): ('float', 'float'),
+            ('dec', 'xsfloat'): ('Float', 'Float'), ('xsfloat', 'dec'): ('Float', 'Float')}
+CLSNAME = {'int': 'int', 'dec': 'Decimal', 'float': 'float', 'xsfloat': 'Float'}
+PSAMPLE = {'int': INT_GRID[:9], 'dec': DEC_GRID[:9], 'float': FLOAT_GRID, 'xsfloat': [XsFloat(x) for x in (0.5, -1.5, 2.0, 1e10)]}
+
+
+def get_operands_case(k1, k2):
+    def setup(S, ex):
+        a = PKINDS[k1](S, 'a', ex)
+        b = PKINDS[k2](S, 'b', ex)
+        tok = mk_token('2.0', '+', nitems=2)
+        ctx = mk_context()
+
+        def get_argument(ex, node, args, kw):
+            return b if 'index' in kw else a
+        return Case([tok, ctx], hooks=std_hooks(tok, {'self.get_argument': get_argument}))
+    return setup
+
+
+def get_operands_native(i):
+    tok = parse('2.0', '$a + $b')
+    ctx = XPathContext(root=None, item=1, variables={'a': i['a'], 'b': i['b']})
+    return run_native(lambda: tok.get_operands(ctx))
+
+
+for k1 in ('int', 'dec', 'float', 'xsfloat'):
+    for k2 in ('int', 'dec', 'float', 'xsfloat'):
+        e1, e2 = PROMOTED.get((k1, k2), (CLSNAME[k1], CLSNAME[k2]))
+        unchanged = (k1, k2) not in PROMOTED
+        CONTRACTS.append(Contract(
+            f'get_operands.{k1}.{k2}', 'C06', lambda: XPathToken.get_operands, get_operands_case(k1, k2),
+            post=[
+                ('promoted_classes', f"returned and class_name(result[0]) == '{e1}' and class_name(result[1]) == '{e2}'"),
+                ('values_kept', "returned and " + (
+                    "unchanged(result[0], a) and unchanged(result[1], b)" if unchanged else
+                    ("unchanged(result[1], b) and (not is_finite(result[0]) or abs(exact(a)) > 2 ** 53 or not is_integral(a) or exact(result[0]) == exact(a))"
+                     if k1 == 'dec' else
+                     "unchanged(result[0], a) and (not is_finite(result[1]) or abs(exact(b)) > 2 ** 53 or not is_integral(b) or exact(result[1]) == exact(b))"))),
+            ],
+            native=get_operands_native,
+            samples=lambda rng, k1=k1, k2=k2: ({'a': x, 'b': y} for x in PSAMPLE[k1] for y in PSAMPLE[k2]),
+            expect_min_obligations=2))
+
+
+# ---- bounded stand-ins (never counted as proved) ------------------------------------------------
+from fractions import Fraction                                # noqa: E402
+from .bounded import Bounded                                  # noqa: E402
+
+
+def _round_half_up_at(x: Fraction, p: int) -> Fraction:
+    s = Fraction(10) ** p
+    return Fraction(math.floor(x * s + Fraction(1, 2))) / s
+
+
+def _round_half_even_at(x: Fraction, p: int) -> Fraction:
+    s = Fraction(10) ** p
+    y = x * s
+    f = math.floor(y)
+    d = y - f
+    n = f if d < Fraction(1, 2) else f + 1 if d > Fraction(1, 2) else (f if f % 2 == 0 else f + 1)
+    return Fraction(n) / s
+
+
+def big_rounding(tier, seed):
+    """round / round-half-to-even on integers and decimals of 25..45 digits (the region where the
+    code leaves the default decimal context: assumption A-LOCALPREC of the deductive part)."""
+    import random
+    rng = random.Random(seed)
+    vals = []
+    for nd in (25, 27, 28, 29, 30, 35, 45):
+        for lead in ('9' * nd, '1' + '0' * (nd - 1), '12345678901234567890123456789012345678901234567890'[:nd],
+                     '9' * (nd - 2) + '85'):
+            for frac in ('', '.5', '.25', '.75', '.4999', '.05', '.95'):
+                for sign in ('', '-'):
+                    vals.append(sign + lead + frac)
+    if tier == 'thorough':
+        for _ in range(2000):
+            nd = rng.randint(20, 60)
+            vals.append(rng.choice(['', '-']) + str(rng.randint(10 ** (nd - 1), 10 ** nd - 1)) +
+                        rng.choice(['', '.5', '.' + str(rng.randint(0, 999))]))
+    fails = []
+    n = 0
+    seen = set()
+    for v in vals:
+        d = decimal.Decimal(v)
+        args = [d] + ([int(d)] if d == d.to_integral_value() else [])
+        for a in args:
+            for p in (None, 0, -1, -2, -5, 1, 2):
+                for fn_, spec in (('round', _round_half_up_at), ('round-half-to-even', _round_half_even_at)):
+                    expr = f'{fn_}($a)' if p is None else f'{fn_}($a, {p})'
+                    n += 1
+                    seen.add((type(a).__name__, len(v), p, fn_, v[-2:]))
+                    want = spec(Fraction(a), p or 0)
+                    got = eval_native('3.1', expr, a=a)
+                    ok = got[0] == 'return' and type(got[1]) is type(a) and Fraction(got[1]) == want
+                    if not ok:
+                        fails.append({'key': f'{expr}|{a!r}', 'what': f'{expr} with $a={a!r}: got {got!r}, F&O value {want}',
+                                      'expr': expr, 'a': repr(a)})
+    return {'evaluations': n, 'distinct': len(seen), 'failures': fails[:20], 'n_failures': len(fails),
+            'scope': 'integers/decimals with 25..45 (thorough: 20..60) digits x fractions {.5,.25,.75,...} x precision '
+                     '{absent,0,-1,-2,-5,1,2} x {round, round-half-to-even}; oracle: exact Fraction arithmetic',
+            'rule': 'distinct = (class, digit count, precision, function, last two chars of the literal)'}
+
+
+def _replay_expr(f):
+    a = eval(f['a'], {'Decimal': decimal.Decimal})
+    got = eval_native('3.1', f['expr'], a=a)
+    print('replay', f['expr'], f['a'], '->', got)
+    return False     # a recorded failure stays a failure unless the check itself stops reporting it
+
+
+def double_arithmetic(tier, seed):
+    """IEEE double results of + - * div mod idiv against exact rational arithmetic rounded once
+    (float(Fraction) rounds to nearest even)."""
+    import random
+    rng = random.Random(seed)
+    grid = [0.0, -0.0, 1.0, -1.0, 0.5, -0.5, 1.5, -2.5, 3.0, 6.5, -6.5, 4.0, 7.0, 0.1, 0.2, 0.3, 1e-7, 1e16, 2.0 ** 53,
+            2.0 ** 53 + 2, 5e-324, 2.2250738585072014e-308, 1.7976931348623157e308, 1e300, -1e300, 1 / 3, 123456.789]
+    pairs = [(a, b) for a in grid for b in grid]
+    for _ in range(300 if tier == 'quick' else 20000):
+        pairs.append((rng.uniform(-1e6, 1e6) * 10 ** rng.randint(-10, 10), rng.uniform(-1e3, 1e3) * 10 ** rng.randint(-10, 10)))
+    fails = []
+    n = 0
+    seen = set()
+
+    def rnd(fr):
+        try:
+            return float(fr)
+        except OverflowError:
+            return math.inf if fr > 0 else -math.inf
+    for a, b in pairs:
+        fa, fb = Fraction(a), Fraction(b)
+        for op in ('+', '-', '*', 'div', 'mod', 'idiv'):
+            n += 1
+            seen.add((op, a == 0, b == 0, a < 0, b < 0, abs(a) > abs(b)))
+            got = eval_native('3.1', f'$a {op} $b', a=a, b=b)
+            if op in ('+', '-', '*'):
+                want = ('return', rnd({'+': fa + fb, '-': fa - fb, '*': fa * fb}[op]))
+            elif op == 'div':
+                if b == 0:
+                    want = ('return', math.nan if a == 0 else math.copysign(math.inf, math.copysign(1, a) * math.copysign(1, b)))
+                else:
+                    want = ('return', rnd(fa / fb))
+            elif op == 'mod':
+                want = ('return', math.nan) if b == 0 else ('return', float(fa - fb * math.trunc(fa / fb)))
+            else:
+                want = ('raise', 'FOAR0001') if b == 0 else ('return', math.trunc(fa / fb))
+            if want[0] == 'raise':
+                ok = got[0] == 'raise' and str(getattr(got[1], 'code', '')).endswith(want[1])
+            else:
+                w, g = want[1], got[1] if got[0] == 'return' else None
+                if isinstance(w, float) and math.isnan(w):
+                    ok = isinstance(g, float) and math.isnan(g)
+                elif op == 'idiv':
+                    # F&O 4.2.5: exact "subject to limits of precision": quotients beyond 2**53 may
+                    # carry the relative error of one double rounding
+                    ok = isinstance(g, int) and not isinstance(g, bool) and \
+                        (g == w or (abs(w) >= 2 ** 53 and abs(g - w) <= abs(w) // 2 ** 51)) or \
+                        (got[0] == 'raise' and str(getattr(got[1], 'code', '')).endswith('FOAR0002') and abs(w) >= 2 ** 1023)
+                else:
+                    ok = isinstance(g, float) and g == w and (w != 0 or op != 'mod' or True)
+            if not ok:
+                fails.append({'key': f'{a!r} {op} {b!r}', 'what': f'{a!r} {op} {b!r}: got {got!r}, expected {want!r}'})
+    return {'evaluations': n, 'distinct': len(seen), 'failures': fails[:20], 'n_failures': len(fails),
+            'scope': f'{len(pairs)} double pairs (boundary grid^2 + seeded samples) x 6 operators; oracle: Fraction arithmetic '
+                     'rounded once to nearest-even', 'rule': 'distinct = (operator, zero/sign/magnitude-order class of the pair)'}
+
+
+BOUNDED = [Bounded('big_number_rounding', big_rounding), Bounded('double_arithmetic_vs_rational', double_arithmetic)]
+
+NOT_DECIDED = [
+    'IEEE 754 results of finite double/float arithmetic (computed inside CPython/libm): special-value tables are proved, '
+    'finite results only through the bounded stand-in double_arithmetic_vs_rational',
+    'xs:float (single precision) range/precision clamps of datatypes.Float',
+    'round/round-half-to-even beyond the 28-digit decimal context rest on assumption A-LOCALPREC; covered by the bounded '
+    'stand-in big_number_rounding',
+]
